@@ -26,10 +26,10 @@ func (rn *runner) faultOne(c faultCase) (hit bool) {
 		rn.res.Count("fault-hit:" + c.Sys)
 	}
 	rn.res.Count("fault-outcome:" + strings.Fields(fo.impl)[0])
-	in := map[string]string{"kind": "fault", "old": c.Old, "new": c.New, "sys": c.Sys, "k": fmt.Sprint(c.K)}
+	in := map[string]string{"kind": "fault", "call": c.call(), "old": c.Old, "new": c.New, "sys": c.Sys, "k": fmt.Sprint(c.K)}
 	if fo.direct != "" {
-		rn.violate("impl-violation", "transform-fault:"+fo.direct, "fault "+fo.direct+" "+c.Sys,
-			fmt.Sprintf("Transform with the %d-th %s on the file failing: %s", c.K, c.Sys, fo.direct), fo.impl, fo.model, in)
+		rn.violate("impl-violation", c.call()+"-fault:"+fo.direct, "fault "+c.call()+" "+fo.direct+" "+c.Sys,
+			fmt.Sprintf("%s with the %d-th %s on the file failing: %s", c.call(), c.K, c.Sys, fo.direct), fo.impl, fo.model, in)
 	}
 	if fo.model != "" && fo.model != fo.impl {
 		rn.violate("correspondence", "faulty-ops:"+c.Sys, "fault-ops "+c.key(),
@@ -47,11 +47,28 @@ func (rn *runner) faultPhase() {
 			// k = 1, 2, ... until the injection no longer hits a call (that run is the
 			// fault-free one and is checked too)
 			for k := 1; k <= 12; k++ {
-				if !rn.faultOne(faultCase{rel[0], rel[1], sys, k}) {
+				if !rn.faultOne(faultCase{"transform", rel[0], rel[1], sys, k}) {
 					break
 				}
 				if sys == "flock" {
 					break
+				}
+			}
+		}
+	}
+}
+
+// writeFaultPhase: Write / Create+Write / Edit+Write under a failing ftruncate or write.
+// No rollback is promised; the oracle is "old, or a prefix of the new data, never a mixture".
+func (rn *runner) writeFaultPhase() {
+	pairs := [][2]string{{"616263646566", "78797a"}, {"6162", "3031323334353637"}, {"-", "7879"}, {"616263", "-"}}
+	for _, call := range []string{"write", "createwrite", "editwrite"} {
+		for _, pr := range pairs {
+			for _, sys := range []string{"ftruncate", "write", "flock"} {
+				for k := 1; k <= 3; k++ {
+					if !rn.faultOne(faultCase{call, pr[0], pr[1], sys, k}) || sys == "flock" {
+						break
+					}
 				}
 			}
 		}
@@ -139,7 +156,7 @@ func (rn *runner) runInput(in map[string]string) {
 		}
 	case "fault":
 		if rn.st {
-			rn.faultOne(faultCase{in["old"], in["new"], in["sys"], atoi("k")})
+			rn.faultOne(faultCase{in["call"], in["old"], in["new"], in["sys"], atoi("k")})
 		}
 	case "stress":
 		for i := 0; i < 3; i++ { // schedules are not reproducible: a few attempts
